@@ -345,8 +345,11 @@ func convertFFIParamsToABIParameters(ctx context.Context, params fftypes.FFIPara
 		}
 
 		var s *Schema
-		// Errors here are unchecked because they cannot be hit if the above JSON Schema validation passed
-		_ = json.Unmarshal(param.Schema.Bytes(), &s)
+		// The JSON Schema validation above does not guarantee every field has the Go type we read it
+		// into (an index that does not fit an int for example) - so a failure here is reported
+		if err := json.Unmarshal(param.Schema.Bytes(), &s); err != nil {
+			return nil, i18n.WrapError(ctx, err, signermsgs.MsgInvalidFFIDetailsSchema, param.Name)
+		}
 		abiParameter, err := processField(ctx, param.Name, s)
 		if err != nil {
 			return nil, err
